@@ -1,9 +1,9 @@
 package main
 
 import (
-	"os"
 	"go/token"
 	"go/types"
+	"os"
 	"strings"
 
 	"golang.org/x/tools/go/ssa"
@@ -327,28 +327,7 @@ func runC04(c *Ctx) {
 			}
 		}
 		c.Sites["C04-R3#VM-literals"] = nLit
-		if rl := c.mustFn("C04-R3", vmPkg, "VM.runLoop"); rl != nil {
-			ok := false
-			for _, lp := range naturalLoops(rl) {
-				for b := range lp.body {
-					iff := ifOf(b)
-					if iff == nil {
-						continue
-					}
-					if derivesFrom(iff.Cond, func(v ssa.Value) bool { return loadedFromField(v, "VM", "maxSteps") }) {
-						// comparison of a counter with maxSteps: one edge leaves the loop towards an error return
-						if bo, isBO := iff.Cond.(*ssa.BinOp); isBO && (bo.Op == token.GTR || bo.Op == token.GEQ || bo.Op == token.LSS || bo.Op == token.LEQ) {
-							for _, s := range b.Succs {
-								if !lp.body[s] || blockHas(s, isReturn) {
-									ok = true
-								}
-							}
-						}
-					}
-				}
-			}
-			c.ob("C04-R3", vmPkg+".VM.runLoop#step-limit-enforced-in-loop", rl.Pos(), ok, "runLoop does not compare its step counter with maxSteps inside the execution loop")
-		}
+		stepLimitInRunLoop(c, "C04-R3")
 	}
 
 	// ---------- L3 containment ----------
@@ -918,10 +897,37 @@ func errorIface() *types.Interface {
 	return errIface
 }
 
-
 func derefPtr(t types.Type) types.Type {
 	if p, ok := t.Underlying().(*types.Pointer); ok {
 		return p.Elem()
 	}
 	return t
+}
+
+// stepLimitInRunLoop: VM.runLoop compares its step counter with maxSteps inside the dispatch loop and the over-limit edge
+// leaves with an error (C04-R3; also C10-R9: hand-made bytecode cannot run for ever either, whatever opcode closes its loop).
+func stepLimitInRunLoop(c *Ctx, rule string) {
+	if rl := c.mustFn(rule, vmPkg, "VM.runLoop"); rl != nil {
+		ok := false
+		for _, lp := range naturalLoops(rl) {
+			for b := range lp.body {
+				iff := ifOf(b)
+				if iff == nil {
+					continue
+				}
+				if derivesFrom(iff.Cond, func(v ssa.Value) bool { return loadedFromField(v, "VM", "maxSteps") }) {
+					// comparison of a counter with maxSteps: one edge leaves the loop towards an error return
+					if bo, isBO := iff.Cond.(*ssa.BinOp); isBO && (bo.Op == token.GTR || bo.Op == token.GEQ || bo.Op == token.LSS || bo.Op == token.LEQ) {
+						for _, s := range b.Succs {
+							if !lp.body[s] || blockHas(s, isReturn) {
+								ok = true
+							}
+						}
+					}
+				}
+			}
+		}
+		c.ob(rule, vmPkg+".VM.runLoop#step-limit-enforced-in-loop", rl.Pos(), ok, "runLoop does not compare its step counter with maxSteps inside the execution loop")
+	}
+
 }
